@@ -337,9 +337,10 @@ def _names(e):
         else set()
 
 
-def _depends_on(fn, value_expr, upto=None):
+def _depends_on(fn, value_expr, upto=None, exprs=None):
     """names (parameters and locals) the value transitively depends on through
-    assignments in fn (flow-insensitive backward slice)"""
+    assignments in fn (flow-insensitive backward slice); the expressions of the
+    slice are appended to `exprs` when a list is given"""
     defs = {}
     for n in ast.walk(fn):
         if isinstance(n, ast.Assign):
@@ -359,14 +360,35 @@ def _depends_on(fn, value_expr, upto=None):
             defs.setdefault(n.target.id, []).append(n.value)
     seen = set()
     work = list(_names(value_expr))
+    if exprs is not None and value_expr is not None:
+        exprs.append(value_expr)
     while work:
         nm = work.pop()
         if nm in seen:
             continue
         seen.add(nm)
         for v in defs.get(nm, []):
+            if exprs is not None:
+                exprs.append(v)
             work.extend(_names(v) - seen)
     return seen
+
+
+def _uses_of(exprs, p):
+    """how a slice reads the parameter p: (read whole?, attributes read).  A
+    read is 'whole' unless it is the object of an attribute access."""
+    whole, attrs = False, set()
+    for e in exprs:
+        objs = set()
+        for n in ast.walk(e):
+            if isinstance(n, ast.Attribute) and isinstance(n.value, ast.Name) \
+                    and n.value.id == p:
+                attrs.add(n.attr)
+                objs.add(id(n.value))
+        for n in ast.walk(e):
+            if isinstance(n, ast.Name) and n.id == p and id(n) not in objs:
+                whole = True
+    return whole, attrs
 
 
 def _target_names(t):
@@ -463,6 +485,26 @@ def check_memo_tables(ctx, model, modules, accepted=()):
                         missing.append(p)
                 if "self" in missing and not _self_matters(fn, val, vdep):
                     missing.remove("self")
+                # a key that names only some attributes of a parameter covers
+                # only those: what the value reads beyond them is left out
+                vex, kex = [], []
+                _depends_on(fn, val, exprs=vex)
+                _depends_on(fn, key, exprs=kex)
+                for p in params:
+                    if p in ("self", "cls") or p not in vdep or \
+                            p not in key_dep or p in missing:
+                        continue
+                    kwhole, kattrs = _uses_of(kex, p)
+                    if kwhole or not kattrs:
+                        continue
+                    vwhole, vattrs = _uses_of(vex, p)
+                    beyond = sorted(vattrs - kattrs)
+                    if vwhole and not beyond:
+                        beyond = ["<the whole object>"]
+                    if beyond:
+                        missing.append(
+                            f"{p}.{'/'.join(beyond)} (the key reads only "
+                            f"{p}.{'/'.join(sorted(kattrs))})")
                 ctx.ob(f"O/memo/{tag}/key-covers-inputs:{fn.name}", not missing,
                        loc,
                        f"{label}[{ast.unparse(key)}] is computed from "
